@@ -198,3 +198,80 @@ def e_cache(k: int) -> bool:
         if not ok:
             _say(hist.OPS[c0], hist.OPS[c1], sh, PREFIX[corrupt], which, msg)
         return ok
+
+
+# --------------------------------------------------------------------------- K4: two clients storing the same entry into a shared cache
+def _coop_store():
+    """Repository._store_cached from the current source as a cooperative generator (pre-emption before every statement)."""
+    import ast
+    from vt import lift
+    mod, tree = lift._module_tree('replicat.repository')
+    cls = [n for n in tree.body if isinstance(n, ast.ClassDef) and n.name == 'Repository'][0]
+    fn = [n for n in cls.body if isinstance(n, ast.FunctionDef) and n.name == '_store_cached'][0]
+    fn = lift.Yielder(set()).instrument(fn)
+    m = ast.Module(body=[fn], type_ignores=[])
+    ast.fix_missing_locations(m)
+    ns = dict(mod.__dict__)
+    exec(compile(m, '<coop Repository._store_cached>', 'exec'), ns)
+    return ns['_store_cached']
+
+
+_STORE = None
+
+
+class _CacheSelf:
+    def __init__(self, d):
+        self._cache_directory = str(d)
+
+
+def store_race_case(schedule, n_clients):
+    global _STORE
+    if _STORE is None:
+        _STORE = _coop_store()
+    data = b'{"verified snapshot bytes": true}'
+    with world.scratch('c18k4') as d:
+        path = 'snapshots/ab/cdef-0123'
+        gens = []
+        for i in range(n_clients):
+            g = _STORE(_CacheSelf(d), path, data)
+            gens.append(g if hasattr(g, '__next__') else iter(()))
+        live = [True] * n_clients
+        errors = []
+        for s in list(schedule) + list(range(n_clients)) * 40:
+            if not any(live):
+                break
+            for off in range(n_clients):
+                j = (s + off) % n_clients
+                if live[j]:
+                    try:
+                        next(gens[j])
+                    except StopIteration:
+                        live[j] = False
+                    except Exception as e:
+                        live[j] = False
+                        errors.append(repr(e))
+                    break
+        if errors:
+            return False, f'{n_clients} clients storing the same snapshot into a shared cache: {errors[0]} (schedule {schedule})'
+        f = Path(d, path)
+        if not f.exists() or f.read_bytes() != data:
+            return False, 'shared cache entry missing or different after concurrent stores'
+        left = [p.name for p in f.parent.iterdir() if p.name != f.name]
+        if left:
+            return False, f'leftover files next to the cache entry: {left}'
+        return True, ''
+
+
+def k4_store_race(k: int) -> bool:
+    """
+    pre: 0 <= k < 2 * 3 ** 6
+    post: _
+    """
+    sched = digits(k, [2] + [3] * 6)
+    with NoTracing():
+        n = sched[0] + 2
+        ok, msg = store_race_case([x % n for x in sched[1:]], n)
+        tick('k4', [n] + sched[1:])
+        if not ok:
+            _say(msg)
+        return ok
